@@ -93,7 +93,12 @@ def g_opdef(op):
         gstr(op["cls"]), gbool(op["classlevel"]), exs, g_code(op["body"]))
 
 
+DEFAULT_PRM = dict(rate=[1, 1], ignore=False, skipped=False, copy=False)     # RecordingParameters() (:1014-1030)
+
+
 def g_prm(p):
+    if p is None:          # no parameters registered for the class: the recorder builds RecordingParameters() per run
+        p = DEFAULT_PRM
     return "{| p_rate := %s; p_ignore := %s; p_skipped := %s; p_copy := %s |}" % (
         gQ(Fraction(*p["rate"])), gbool(p["ignore"]), gbool(p["skipped"]), gbool(p["copy"]))
 
